@@ -13,6 +13,7 @@ import (
 	"os"
 	"sort"
 	"strconv"
+	"strings"
 	"testing"
 	"unsafe"
 
@@ -55,12 +56,15 @@ func ctlEqual(p, q unsafe.Pointer) bool {
 	return a&vNanBit == 0 && a&^vVarBit == b&^vVarBit
 }
 
-func mkCtlType(refl, upd bool) *maptype {
+func mkCtlType(refl, upd, ptr bool) *maptype {
 	u64 := &abi.Type{Size_: 8, Align_: 8, FieldAlign_: 8, Kind_: uint8(abi.Uint64), Equal: ctlEqual, Str_: "ctlkey"}
 	el := &abi.Type{Size_: 8, Align_: 8, FieldAlign_: 8, Kind_: uint8(abi.Uint64), Equal: memequal64, Str_: "uint64",
 		TFlag: abi.TFlagRegularMemory}
 	bsz := uintptr(8 + 8*8 + 8*8 + 8)
 	bt := &abi.Type{Size_: bsz, Align_: 8, Kind_: uint8(abi.Struct), Str_: "bucket"}
+	if ptr { // t.Bucket.PtrBytes != 0: evacuate wipes old buckets nobody iterates, overflow lists unused
+		bt.PtrBytes = bsz
+	}
 	mt := &abi.MapType{Key: u64, Elem: el, Bucket: bt, Hasher: ctlHasher, KeySize: 8, ValueSize: 8, BucketSize: uint16(bsz)}
 	mt.Type.Kind_ = uint8(abi.Map)
 	mt.Type.Size_ = 8
@@ -94,10 +98,13 @@ type histRec struct {
 	Hint    int            `json:"hint"`
 	Refl    bool           `json:"refl"`
 	Upd     bool           `json:"upd"`
+	Ptr     bool           `json:"ptr"`
 	Seed    uint64         `json:"seed"`
 	Ops     [][]uint64     `json:"ops"`
 	Res     [][]uint64     `json:"res"`
 	Tainted bool           `json:"tainted"`
+	NoCoq   bool           `json:"nocoq"`
+	NOps    int            `json:"nops"`
 	Cov     map[string]int `json:"cov"`
 }
 
@@ -110,6 +117,7 @@ type violRec struct {
 	Hint  int        `json:"hint"`
 	Refl  bool       `json:"refl"`
 	Upd   bool       `json:"upd"`
+	Ptr   bool       `json:"ptr"`
 	Seed  uint64     `json:"seed"`
 	Ops   [][]uint64 `json:"ops"`
 	At    int        `json:"at"`
@@ -139,17 +147,21 @@ type ctlRun struct {
 	rec    *histRec
 	enc    *json.Encoder
 	nviol  int
-	stop   bool // tainted clear or fatal: the history ends
+	stop   bool // fatal / panic: the history ends
 	noViol bool // witness of a recorded finding: classified by the caller
 	viols  []string
 }
 
 func newCtlRun(enc *json.Encoder, class string, isNil bool, hint int, refl, upd bool, seed uint64) *ctlRun {
+	return newCtlRunP(enc, class, isNil, hint, refl, upd, false, seed)
+}
+
+func newCtlRunP(enc *json.Encoder, class string, isNil bool, hint int, refl, upd, ptr bool, seed uint64) *ctlRun {
 	vresetArena()
 	vrnd = seed
 	vfatal = vfatal[:0]
-	c := &ctlRun{t: mkCtlType(refl, upd), ref: map[uint64]*refEnt{}, enc: enc}
-	c.rec = &histRec{Kind: "hist", Class: class, Nil: isNil, Hint: hint, Refl: refl, Upd: upd, Seed: seed, Cov: map[string]int{}}
+	c := &ctlRun{t: mkCtlType(refl, upd, ptr), ref: map[uint64]*refEnt{}, enc: enc}
+	c.rec = &histRec{Kind: "hist", Class: class, Nil: isNil, Hint: hint, Refl: refl, Upd: upd, Ptr: ptr, Seed: seed, Cov: map[string]int{}}
 	if !isNil {
 		c.h = MakeMap(c.t, hint)
 	}
@@ -164,7 +176,7 @@ func (c *ctlRun) viol(key, what string) {
 	}
 	r := c.rec
 	c.enc.Encode(violRec{Kind: "viol", Key: key, What: what, Class: r.Class, Nil: r.Nil, Hint: r.Hint, Refl: r.Refl,
-		Upd: r.Upd, Seed: r.Seed, Ops: r.Ops, At: len(r.Ops) - 1})
+		Upd: r.Upd, Ptr: r.Ptr, Seed: r.Seed, Ops: r.Ops, At: len(r.Ops) - 1})
 }
 
 func (c *ctlRun) internals() []uint64 {
@@ -450,12 +462,17 @@ func (c *ctlRun) do(code int, a, b uint64) {
 		c.viol("runtime-throw-continues", "the map code called "+vfatal[0]+" (llgo prints and continues)")
 		c.stop = true
 	}
-	if c.rec.Tainted {
-		c.stop = true
-	}
 }
 
 func (c *ctlRun) finish() {
+	c.rec.NOps = len(c.rec.Ops)
+	c.enc.Encode(c.rec)
+}
+
+// oracle-only histories: the trace is not written out (only its size and coverage)
+func (c *ctlRun) finishSummary() {
+	c.rec.NOps = len(c.rec.Ops)
+	c.rec.Ops, c.rec.Res = nil, nil
 	c.enc.Encode(c.rec)
 }
 
@@ -514,7 +531,7 @@ func (g *keyGen) fresh() uint64 {
 var thresholds = []int{7, 8, 9, 11, 12, 13, 14, 23, 24, 25, 26, 47, 48, 49, 50, 95, 96, 97, 98, 104, 105, 191, 192, 193, 194, 384, 385, 386}
 
 func genHistory(enc *json.Encoder, r *vrng, idx int, big bool) *ctlRun {
-	prof := idx % 6
+	prof := idx % 7
 	nanPct, varPct := 0, 0
 	if r.n(4) == 0 {
 		nanPct = 5 + r.n(20)
@@ -537,7 +554,7 @@ func genHistory(enc *json.Encoder, r *vrng, idx int, big bool) *ctlRun {
 	if hint > 0 {
 		class += "-hint"
 	}
-	if prof == 5 && idx%12 == 5 {
+	if prof == 5 && idx%14 == 5 {
 		c := newCtlRun(enc, "nil-map", true, 0, refl, upd, seed)
 		for i := 0; i < 12; i++ {
 			k := g.fresh()
@@ -563,7 +580,11 @@ func genHistory(enc *json.Encoder, r *vrng, idx int, big bool) *ctlRun {
 		}
 		return c
 	}
-	c := newCtlRun(enc, class, false, hint, refl, upd, seed)
+	ptr := r.n(3) == 0
+	if ptr {
+		class += "-ptr"
+	}
+	c := newCtlRunP(enc, class, false, hint, refl, upd, ptr, seed)
 	var keys []uint64 // every key ever used (present or deleted)
 	val := uint64(0)
 	nv := func() uint64 { val++; return val }
@@ -759,6 +780,89 @@ func genHistory(enc *json.Encoder, r *vrng, idx int, big bool) *ctlRun {
 			}
 		}
 		c.do(opDrain, 0, 0)
+	case 6: // overflow chains emptied in every order: emptyOne / emptyRest bookkeeping of mapdelete
+		// a few buckets, each with 9..30 colliding keys, so that overflow buckets are full of live
+		// cells; then deletes in a random permutation (this leaves emptyOne cells at the head of an
+		// overflow bucket while later cells are live, and deletes last slots of the preceding
+		// bucket afterwards), every survivor looked up after every delete
+		g.lowMode = 1
+		nb := 1 + r.n(3)
+		per := 9 + r.n(22)
+		if big {
+			nb, per = 2+r.n(6), 17+r.n(40)
+		}
+		for bkt := 0; bkt < nb; bkt++ {
+			g.lowBase = uint16(bkt)
+			for i := 0; i < per; i++ {
+				k := g.fresh()
+				keys = append(keys, k)
+				c.do(opSet, k, nv())
+			}
+		}
+		alive := append([]uint64(nil), keys...)
+		order := append([]uint64(nil), keys...)
+		switch r.n(3) {
+		case 0: // reverse insertion order inside each run of 2..4 keys: slot 0 of an overflow bucket before slot 7 of its predecessor
+			for i := 0; i+1 < len(order); i += 2 + r.n(3) {
+				order[i], order[i+1] = order[i+1], order[i]
+			}
+		case 1:
+			for i := len(order) - 1; i > 0; i-- {
+				j := r.n(i + 1)
+				order[i], order[j] = order[j], order[i]
+			}
+		default: // heads of overflow buckets first (every 8th key of a chain, starting with the 9th), then random
+			var heads, rest []uint64
+			for i, k := range order {
+				if i%per >= 8 && (i%per)%8 == 0 {
+					heads = append(heads, k)
+				} else {
+					rest = append(rest, k)
+				}
+			}
+			for i := len(rest) - 1; i > 0; i-- {
+				j := r.n(i + 1)
+				rest[i], rest[j] = rest[j], rest[i]
+			}
+			order = append(heads, rest...)
+		}
+		stopAt := len(order) - r.n(1+len(order)/3)
+		for n, k := range order {
+			if n >= stopAt || c.stop {
+				break
+			}
+			c.do(opDel, k, 0)
+			for i, a := range alive {
+				if a == k {
+					alive = append(alive[:i], alive[i+1:]...)
+					break
+				}
+			}
+			if big && n%4 != 0 {
+				continue
+			}
+			for _, a := range alive { // every survivor of the same chain must still be found
+				if a&0xffff == k&0xffff || r.n(16) == 0 {
+					c.do(opGet, a, 0)
+				}
+			}
+			c.do(opLen, 0, 0)
+			if r.n(6) == 0 {
+				c.do(opDrain, 0, 0)
+			}
+		}
+		for _, a := range alive { // overwriting a survivor must not add an entry
+			c.do(opSet, a, nv())
+		}
+		c.do(opDrain, 0, 0)
+		for _, k := range keys { // re-insert everything, delete everything
+			c.do(opSet, k, nv())
+		}
+		c.do(opDrain, 0, 0)
+		for _, k := range keys {
+			c.do(opDel, k, 0)
+		}
+		c.do(opDrain, 0, 0)
 	default: // drains in the middle of a growth, right after each trigger
 		for i := 0; i < target+20 && !c.stop; i++ {
 			ins()
@@ -776,8 +880,9 @@ func genHistory(enc *json.Encoder, r *vrng, idx int, big bool) *ctlRun {
 	return c
 }
 
-// the recorded finding: clear() of a map with B >= 4 whose preallocated overflow
-// bucket is in use keeps the stale overflow links (memclr* are empty in llgo)
+// regression guard for the repaired finding mapclear-keeps-stale-overflow-links: clear() of a
+// map with B >= 4 whose preallocated overflow bucket is in use must wipe the overflow links
+// (memclr* used to be empty in llgo: two chains then shared one bucket and keys were lost)
 func witnessClear(enc *json.Encoder) {
 	c := newCtlRun(enc, "witness-clear-stale-overflow", false, 0, true, false, 12345)
 	c.noViol = true
@@ -789,41 +894,33 @@ func witnessClear(enc *json.Encoder) {
 	for i := uint64(0); i < 40; i++ {
 		set(uint16(16+i), 100+i)
 	}
-	c.stop = false
 	c.do(opClear, 0, 0)
 	tainted := c.rec.Tainted
-	c.rec.Tainted = false
-	c.stop = false
 	for i := uint64(0); i < 9; i++ {
 		set(2, 200+i)
 	}
 	for i := uint64(0); i < 9; i++ {
 		set(1, 300+i)
 	}
-	for i := uint64(0); i < 90 && !c.stop; i++ {
+	for i := uint64(0); i < 90; i++ {
 		set(uint16(32+i), 400+i)
-		c.rec.Tainted = false
 		c.stop = false
 	}
-	c.stop = false
 	for i := uint64(0); i < 9; i++ {
 		c.do(opGet, mkKey(7, 200+i, 2, false, false), 0)
 		c.stop = false
 	}
 	c.do(opLen, 0, 0)
-	c.rec.Tainted = tainted
 	c.finish()
-	lost := false
-	for _, k := range c.viols {
-		if k == "lookup-loses-entry" || k == "runtime-throw-continues" {
-			lost = true
-		}
-	}
-	if lost && tainted {
+	if len(c.viols) > 0 {
 		c.noViol = false
 		c.nviol = 0
-		c.viol("mapclear-keeps-stale-overflow-links", "clear(m) on a map with B>=4 whose preallocated overflow bucket is in use keeps the "+
-			"bucket's overflow link (memclrNoHeapPointers is empty); the bucket is handed out again, two chains share it, and after the next growth a key stored after the clear is no longer found")
+		key := "mapclear-keeps-stale-overflow-links"
+		if !tainted {
+			key = "witness-clear-unexpected-failure"
+		}
+		c.viol(key, "clear(m) on a map with B>=4 whose preallocated overflow bucket is in use keeps the "+
+			"bucket's overflow link; the bucket is handed out again, two chains share it, and after the next growth a key stored after the clear is no longer found ("+strings.Join(c.viols, ",")+")")
 	}
 }
 
@@ -845,6 +942,67 @@ func witnessNanClear(enc *json.Encoder) {
 		c.do(opIterNext, 0, 0)
 	}
 	c.finish()
+}
+
+// large delete-heavy history with well-spread keys (the natural case: a few thousand keys, random
+// deletes, survivors overwritten, everything drained), checked against the reference map only
+// (too long to replay in Coq in the quick tier: nocoq)
+func genDeleteHeavy(enc *json.Encoder, r *vrng, n int) *ctlRun {
+	seed := r.next() & (1<<48 - 1)
+	c := newCtlRunP(enc, "delete-heavy-nocoq", false, 0, true, r.n(2) == 0, r.n(2) == 0, seed)
+	c.rec.NoCoq = true
+	g := &keyGen{r: r, lowMode: 4, topMode: 2}
+	var keys []uint64
+	v := uint64(0)
+	for i := 0; i < n; i++ {
+		k := g.fresh()
+		keys = append(keys, k)
+		v++
+		c.do(opSet, k, v)
+	}
+	c.do(opLen, 0, 0)
+	alive := map[uint64]bool{}
+	for _, k := range keys {
+		alive[k] = true
+	}
+	for round := 0; round < 3 && !c.stop; round++ {
+		for i := len(keys) - 1; i > 0; i-- {
+			j := r.n(i + 1)
+			keys[i], keys[j] = keys[j], keys[i]
+		}
+		for _, k := range keys {
+			if alive[k] && r.n(10) < 7 {
+				c.do(opDel, k, 0)
+				alive[k] = false
+			}
+		}
+		c.do(opLen, 0, 0)
+		for _, k := range keys {
+			c.do(opGet, k, 0)
+		}
+		c.do(opDrain, 0, 0)
+		for _, k := range keys {
+			if alive[k] {
+				v++
+				c.do(opSet, k, v)
+			}
+		}
+		c.do(opLen, 0, 0)
+		c.do(opDrain, 0, 0)
+		for _, k := range keys { // refill a part
+			if !alive[k] && r.n(3) == 0 {
+				v++
+				c.do(opSet, k, v)
+				alive[k] = true
+			}
+		}
+	}
+	for _, k := range keys {
+		c.do(opDel, k, 0)
+	}
+	c.do(opLen, 0, 0)
+	c.do(opDrain, 0, 0)
+	return c
 }
 
 func TestVerif(t *testing.T) {
@@ -874,5 +1032,10 @@ func TestVerif(t *testing.T) {
 	for i := 0; i < nbig; i++ {
 		c := genHistory(enc, r, i, true)
 		c.finish()
+	}
+	nheavy, _ := strconv.Atoi(os.Getenv("VERIF_NHEAVY"))
+	for i := 0; i < nheavy; i++ {
+		c := genDeleteHeavy(enc, r, 2000+r.n(5000))
+		c.finishSummary()
 	}
 }
